@@ -900,7 +900,14 @@ pub fn two_register_bitflip_model() -> Model {
 
 /// Instruction menu of `gen_access_kinds` (amd64 machine code at the crash site): what the instruction analysis
 /// sees is a read, a write, a read-modify-write, two accesses, an implicit stack access, or no memory access.
-pub const ACCESS_INSTRS: [(&str, &[u8]); 10] = [
+/// the numeric value of an address-like field, whatever type the state uses for it
+fn addr_u64<T: Into<u64>>(a: T) -> u64 {
+    a.into()
+}
+
+pub const ACCESS_INSTRS: [(&str, &[u8]); 12] = [
+    ("mov al,[rbx+0x10]", &[0x8a, 0x43, 0x10]),
+    ("mov [rbx+0x7fffffff],al", &[0x88, 0x83, 0xff, 0xff, 0xff, 0x7f]),
     ("mov al,[rsp]", &[0x8a, 0x04, 0x24]),
     ("mov [rsp],al", &[0x88, 0x04, 0x24]),
     ("add dword [rsp],1", &[0x83, 0x04, 0x24, 0x01]),
@@ -2441,8 +2448,8 @@ pub fn check_json(st: &ProcessState, bytes: &[u8], out: &mut Vec<(String, String
             }
             let (kind, val) = match &info.adjusted_address {
                 None => (None, None),
-                Some(minidump_processor::AdjustedAddress::NonCanonical(a)) => (Some("non-canonical"), Some(("address", a.0))),
-                Some(minidump_processor::AdjustedAddress::NullPointerWithOffset(a)) => (Some("null-pointer"), Some(("offset", a.0))),
+                Some(minidump_processor::AdjustedAddress::NonCanonical(a)) => (Some("non-canonical"), Some(("address", addr_u64(*a)))),
+                Some(minidump_processor::AdjustedAddress::NullPointerWithOffset(a)) => (Some("null-pointer"), Some(("offset", addr_u64(*a)))),
             };
             let aa = ci.get("adjusted_address");
             if aa.get("kind").str() != kind || val.is_some_and(|(f, v)| aa.get(f).str() != Some(hexw(v).as_str())) {
